@@ -537,6 +537,40 @@ def make_numpy(extra=None):
     A["fill_diagonal"] = Builtin("np.fill_diagonal", fill_diagonal)
 
     A["sum"] = Builtin("np.sum", np_sum)
+
+    class UFunc(Ext):
+        """np.add / np.multiply as objects with .reduce (np.add.reduce(x, axis=0) is what np.sum(x, axis=0) calls)"""
+        type_name = "ufunc"
+
+        def __init__(self, name, op):
+            self.name, self.op = name, op
+
+        def py_call(self, I, a, k):
+            return ops.binop(I, self.op, a[0], a[1])
+
+        def py_getattr(self, I, name):
+            if name == "reduce" and self.op == "+":
+                def red(I_, a, k):
+                    kk = dict(k)
+                    kk.setdefault("axis", a[1] if len(a) > 1 else 0)
+                    return np_sum(I_, [a[0]], kk)
+                return Builtin(f"np.{self.name}.reduce", red)
+            raise Unsupported(f"np.{self.name}.{name}")
+    A["add"] = UFunc("add", "+")
+    A["subtract"] = UFunc("subtract", "-")
+    A["multiply"] = UFunc("multiply", "*")
+    A["true_divide"] = UFunc("true_divide", "/")
+    A["negative"] = Builtin("np.negative", lambda I, a, k: ops.unop(I, "USub", a[0]))
+    A["positive"] = Builtin("np.positive", lambda I, a, k: a[0])
+
+    def nonzero(I, a, k):
+        t = as_tensor(I, a[0])
+        if any(isinstance(b, Sym) for b in t.data):
+            raise Unsupported("np.nonzero of a symbolic array")
+        from ..values import iter_idx
+        hits = [idx for idx in iter_idx(t.shape) if t.get(idx)]
+        return tuple(Tensor((len(hits),), [h[ax] for h in hits], "int") for ax in range(t.ndim))
+    A["nonzero"] = Builtin("np.nonzero", nonzero)
     A["mean"] = Builtin("np.mean", np_mean)
 
     def np_all(I, a, k):
